@@ -50,6 +50,7 @@ import (
 const (
 	s1  = "cpu,host=a"
 	s2  = "cpu,host=b"
+	s3  = "mem,host=c" // series of a measurement that does not exist yet: written only by "write-new"
 	fld = "v"
 
 	delMin, delMax = 2, 3 // the concurrent range delete removes s1 [2,3]
@@ -435,6 +436,11 @@ func (s Scenario) has(kinds ...string) bool {
 var writeA = []Pt{{2, 20}, {4, 40}}
 var writeB = []Pt{{2, 21}, {5, 50}}
 
+// write-new writes the first point of a new measurement: the write has to create the measurement, its field
+// and the series (Shard.validateSeriesAndFields -> createFieldsAndMeasurements -> saveFieldsAndMeasurements,
+// index CreateSeriesListIfNotExists) while it holds the shard's read lock
+var writeC = []Pt{{2, 70}}
+
 // initial points of s1 per layout and where they live
 func layoutPoints(layout string) (pts []Pt, cacheResident map[int64]bool) {
 	pts = []Pt{{1, 1}, {2, 2}, {3, 3}}
@@ -502,7 +508,7 @@ var layouts = []string{"cache", "tsm+cache", "2tsm+cache"}
 // op kinds of the pair family.
 // The first operation of a pair is thread 0: with one deviation the second operation runs as a block at
 // every branching point of the first, so the operations with the longest internal structure come first.
-var pairKinds = []string{"compact-level", "compact-full", "backup", "snapshot", "delete", "read", "write", "close"}
+var pairKinds = []string{"compact-level", "compact-full", "backup", "snapshot", "delete", "read", "write", "write-new", "close"}
 
 func needsTSM(k string) bool { return strings.HasPrefix(k, "compact") }
 
@@ -733,6 +739,8 @@ func body(sc Scenario, x *vrt.Exec, res *result) {
 			op = func() error { return writePts(sh, s1, writeA...) }
 		case "write2":
 			op = func() error { return writePts(sh, s1, writeB...) }
+		case "write-new":
+			op = func() error { return writePts(sh, s3, writeC...) }
 		case "read":
 			op = func() error {
 				p1, p2, err := readTwo(sh)
@@ -968,6 +976,33 @@ func body(sc Scenario, x *vrt.Exec, res *result) {
 			add("other-series-affected/"+when+"/"+sc.opsKey(), fmt.Sprintf("control series s2 = [%s], want [1=1 2=2] %s", fmtPts(p2), when))
 		}
 	}
+	// the series of the new measurement: touched by no other operation, so every write-new that returned nil
+	// must be readable and listed by the index from then on (a failed one, overlapped by Shard.Close, may or
+	// may not have taken effect)
+	newSeries := func(when string, cur *tsdb.Shard) {
+		if !sc.has("write-new") {
+			return
+		}
+		acked := false
+		for _, r := range recs {
+			if r.kind == "write-new" && r.err == "ok" {
+				acked = true
+			}
+		}
+		p3, err := readSeries(cur, s3, false)
+		if err != nil {
+			add("read-error/"+when, "s3: "+errClass(err))
+			return
+		}
+		got := fmtPts(p3)
+		if got != "2=70" && !(got == "" && !acked) {
+			add("new-series-write-lost/"+when+"/"+sc.opsKey(), fmt.Sprintf("series s3 of the new measurement = [%s] %s, want [2=70] (acknowledged write: %v)", got, when, acked))
+			return
+		}
+		if idx, err := indexedSeries(cur); err == nil && got != "" && !idx[s3] {
+			add("series-missing-from-index/"+when+"/"+sc.opsKey(), "s3 (new measurement) has its point "+when+" but the index does not list the series")
+		}
+	}
 	rd := func(when string, cur *tsdb.Shard) {
 		c := tick()
 		pts, err := readSeries(cur, s1, false)
@@ -978,6 +1013,7 @@ func body(sc Scenario, x *vrt.Exec, res *result) {
 		}
 		posts = append(posts, post{when, c, r, pts})
 		ctl(when, cur)
+		newSeries(when, cur)
 		// a series that has points must be known to the index (queries find series through the index)
 		if idx, err := indexedSeries(cur); err != nil {
 			add("read-error/"+when, "series cursor: "+errClass(err))
@@ -1635,9 +1671,9 @@ func traceOf(r *vrt.Result) []string {
 func TestCheck(t *testing.T) {
 	vlib.Main(t, &vlib.Check{
 		ID: "C39", Level: "model_checking",
-		Rule: "operations = {WritePoints(s1 t=2,4) [a second writer writes t=2,5], read (a query holding two cursors: CreateCursorIterator + cursor over s1, then a second iterator + cursor over the control series s2 while the first holds its TSM references, iterate both, close; scheduling points while cursors are open), DeleteSeriesRange(s1,[2,3]), DeleteSeriesRange(s1, everything) [delete-all: also cleans the index], cache snapshot (one tick of Engine.compactCache = WriteSnapshot, counted in the engine's snapshot WaitGroup), CreateSnapshot(skipCacheOk=false) [backup], level compaction and full compaction of all TSM files of the layout (levelCompactionStrategy/fullCompactionStrategy(group).Apply(), counted in the engine's compaction WaitGroup like the goroutine Engine.compact starts), Shard.Close; thorough also Shard.Backup (tar)} on a real tsdb.Shard from 3 initial layouts of series s1 (points t=1,2,3 in the cache; t=1,2 in one TSM file + t=3 in the cache; t=1 and t=2 in two TSM files + t=3 in the cache; control series s2; compactions are skipped on the cache-only layout). QUICK: on the 1-TSM layout every ordered pair of different operations (delete-all only against close/write/snapshot/level compaction) plus the self-pairs; on the other two layouts both orders of 8 core pairs; 3 triples on the 1-TSM layout; every schedule with ≤1 deviation from the default schedule (default = thread 0 with its worker goroutines, then thread 1; one deviation = the other operation runs as a block at a branching point). THOROUGH: every unordered pair (self-pairs included) × 3 layouts with ≤2 deviations; 10 triples × 3 layouts and tar-backup pairs with ≤1 deviation; every pair × 3 layouts again with the wide branching filter and ≤1 deviation. Schedules branch at the sync/atomic operations that the operation threads themselves execute in Shard, Engine, Cache, entry and Compactor (wide filter: also FileStore, TSMReader, KeyCursor, purger, WAL) and at the harness steps; goroutines started by the operations and the engine's background goroutines are scheduled as forced moves. After the threads finish: read s1/s2 and list the index, write a later cache snapshot, read, restart the shard, read. Each scenario body is additionally repeated free-running (no scheduler; quick 1×, thorough 30×) as a smoke pass. states = decision nodes, transitions = scheduling steps, traces = scheduled executions; non-trivial = scheduled executions with ≥1 deviation",
+		Rule: "operations = {WritePoints(s1 t=2,4) [a second writer writes t=2,5], write-new = WritePoints of the first point of a new measurement (creates measurement, field and series under the shard read lock; oracle: acknowledged => readable and indexed in every later phase), read (a query holding two cursors: CreateCursorIterator + cursor over s1, then a second iterator + cursor over the control series s2 while the first holds its TSM references, iterate both, close; scheduling points while cursors are open), DeleteSeriesRange(s1,[2,3]), DeleteSeriesRange(s1, everything) [delete-all: also cleans the index], cache snapshot (one tick of Engine.compactCache = WriteSnapshot, counted in the engine's snapshot WaitGroup), CreateSnapshot(skipCacheOk=false) [backup], level compaction and full compaction of all TSM files of the layout (levelCompactionStrategy/fullCompactionStrategy(group).Apply(), counted in the engine's compaction WaitGroup like the goroutine Engine.compact starts), Shard.Close; thorough also Shard.Backup (tar)} on a real tsdb.Shard from 3 initial layouts of series s1 (points t=1,2,3 in the cache; t=1,2 in one TSM file + t=3 in the cache; t=1 and t=2 in two TSM files + t=3 in the cache; control series s2; compactions are skipped on the cache-only layout). QUICK: on the 1-TSM layout every ordered pair of different operations (delete-all only against close/write/snapshot/level compaction) plus the self-pairs; on the other two layouts both orders of 8 core pairs; 3 triples on the 1-TSM layout; every schedule with ≤1 deviation from the default schedule (default = thread 0 with its worker goroutines, then thread 1; one deviation = the other operation runs as a block at a branching point). THOROUGH: every unordered pair (self-pairs included) × 3 layouts with ≤2 deviations; 10 triples × 3 layouts and tar-backup pairs with ≤1 deviation; every pair × 3 layouts again with the wide branching filter and ≤1 deviation. Schedules branch at the sync/atomic operations that the operation threads themselves execute in Shard, Engine, Cache, entry and Compactor (wide filter: also FileStore, TSMReader, KeyCursor, purger, WAL) and at the harness steps; goroutines started by the operations and the engine's background goroutines are scheduled as forced moves. After the threads finish: read s1/s2 and list the index, write a later cache snapshot, read, restart the shard, read. Each scenario body is additionally repeated free-running (no scheduler; quick 1×, thorough 30×) as a smoke pass. states = decision nodes, transitions = scheduling steps, traces = scheduled executions; non-trivial = scheduled executions with ≥1 deviation",
 		Assumptions: []string{
-			"sequentially consistent interleavings at the granularity of mutex/atomic operations of tsdb/shard.go, package tsm1 and package tsi1 (all compiled against the modelled sync); locks that are not branching points are passed silently when free and disable the thread when held; the writer preference of sync.RWMutex is not modelled; series file and everything else use the real sync",
+			"sequentially consistent interleavings at the granularity of mutex/atomic operations of tsdb/shard.go, package tsm1 and package tsi1 (all compiled against the modelled sync); locks that are not branching points are passed silently when free and disable the thread when held; the writer preference of sync.RWMutex is modelled (a writer that arrives while readers are active announces itself, which holds back every later RLock, and then waits for the active readers: a recursive RLock behind a pending writer is a deadlock); series file and everything else use the real sync",
 			"data races on plain memory are outside this check: the race detector cannot be built through vf (no -race) and is blind under the cooperative scheduler; the free-running repetitions are only a sampling smoke pass and do not decide the property: what they observe is recorded as informational outcomes (free-running-observation:*, extra.free_running_observations) and never raises a VIOLATION, because a sampled class is not reproducible run to run; the deciding step is the scheduled enumeration",
 			"the cache-snapshot and compaction threads stand for goroutines of the engine's background machinery (counted in the engine's WaitGroups like those goroutines; the compaction group is chosen by the harness instead of the planner)",
 			"oracle: per-point linearizability of the call/return history plus three sequential reads (a read overlapping a write or delete may see either side independently for every point); an operation that returned an error may or may not have taken effect; operations may fail only while/after a Shard.Close runs or with ErrSnapshotInProgress against another snapshot; a successful CreateSnapshot(skipCacheOk=false) is treated as a read of s1, a tar Backup only as 'readable and free of values nobody wrote'; a series with points must be listed by the index",
